@@ -122,7 +122,13 @@ def amount_cases(draw, tier="quick"):
             for p in ax["pairs"][:-1]:
                 if draw(st.booleans()):
                     p[1] = p[0] + (p[1] - p[0]) * 0.5
-    amount = draw(st.one_of(st.integers(1, 5), st.integers(1, 20), st.sampled_from([1.5, 2.5, 0.5])))
+    amount = draw(st.one_of(st.integers(1, 5), st.integers(1, 20), st.sampled_from([1.5, 2.5, 0.5]),
+                            # almost integral is not integral
+                            st.sampled_from([2.00001, 2 + 1e-9, math.nextafter(2.0, 3.0), math.nextafter(3.0, 2.0), 1.999995, 0.3 / 0.1, 1 + 1e-12])))
+    if d == 1 and spec["dtype"] == "int64" and draw(st.integers(0, 3)) == 0:
+        # counts beyond 2**53: sums must stay exact integers (no detour through floating point)
+        spec["freq"] = [draw(st.sampled_from([2 ** 53 + 1, 2 ** 53 + 3, 2 ** 55 + 1, 7, 0, 2 ** 54 - 1])) for _ in spec["freq"]]
+        spec["err2"] = None
     axis = draw(st.one_of(st.none(), st.integers(0, 3)))
     return {"spec": spec, "amount": amount, "axis": axis, "axis_by": draw(st.sampled_from(["index", "name"])), "inplace": draw(st.booleans())}
 
